@@ -3,8 +3,10 @@
 set -e
 cp /verif/contracts/field_contracts_verif.go /repo/field/contracts_verif.go
 [ -f /verif/contracts/contracts_verif.go ] && cp /verif/contracts/contracts_verif.go /repo/contracts_verif.go
+[ -f /verif/contracts/roundtrip_verif.go ] && cp /verif/contracts/roundtrip_verif.go /repo/roundtrip_verif.go
 cd /repo
 git add field/contracts_verif.go
+[ -f roundtrip_verif.go ] && git add roundtrip_verif.go
 [ -f contracts_verif.go ] && git add contracts_verif.go
 if ! git diff --cached --quiet; then
   git commit -qm "${1:-verif hook: contracts (comment-only files behind the verif build tag)}"
